@@ -87,13 +87,13 @@ theorem Chan.set_cur_cases {c c' : Chan} {v : Value} (h : c.set v = .ok c') : c'
   all_goals first | cases h | skip
   all_goals first | exact Or.inl rfl | exact Or.inr rfl
 
-theorem Sim.cpuUpdate {e : Emu} {ci : Nat} {c c0 c' : Cpu} (hc : e.cpus[ci]? = some c)
+theorem SimP.cpuUpdate {e : Emu} {ci : Nat} {c c0 c' : Cpu} (hc : e.cpus[ci]? = some c)
     (hg0 : c0.gindex = c.gindex) (hr0 : c0.chThrun = c.chThrun) (ha0 : c0.chThact = c.chThact)
-    (hu : cpuUpdate e.threads c0 = .ok c') : Sim e (e.setCpu c') := by
+    (hu : cpuUpdate e.threads c0 = .ok c') : SimP Src.isSys e (e.setCpu c') := by
   intro hs
   obtain ⟨hg, _, ⟨v1, h1, hv1⟩, ⟨v2, h2⟩⟩ := cpuUpdate_spec hu
   rw [hr0] at h1; rw [ha0] at h2
-  refine Sim.setCpu hc (hg.trans hg0) (chanOp_set v1) (chanOp_set v2) h1 h2 ?_ hs
+  refine SimP.setCpu trivial trivial hc (hg.trans hg0) (chanOp_set v1) (chanOp_set v2) h1 h2 ?_ hs
   rcases Chan.set_cur_cases h1 with he | he
   · rw [he]; exact hs.run ci c hc
   · rw [he]
@@ -104,7 +104,8 @@ theorem Sim.cpuUpdate {e : Emu} {ci : Nat} {c c0 c' : Cpu} (hc : e.cpus[ci]? = s
       simp only [RunOk, this]
       omega
 
-theorem Sim.cpuAddThread {e e' : Emu} {ci ti : Nat} (h : cpuAddThread e ci ti = .ok e') : Sim e e' := by
+theorem SimP.cpuAddThread {e e' : Emu} {ci ti : Nat} (h : cpuAddThread e ci ti = .ok e') :
+    SimP Src.isSys e e' := by
   unfold Ovni.Emu.cpuAddThread at h
   cases hc : e.cpus[ci]? with
   | none => simp [hc] at h
@@ -119,9 +120,10 @@ theorem Sim.cpuAddThread {e e' : Emu} {ci ti : Nat} (h : cpuAddThread e ci ti = 
         simp only [hu] at h
         have : e.setCpu c' = e' := by injection h
         rw [← this]
-        exact Sim.cpuUpdate (c0 := { c with threads := c.threads ++ [ti] }) hc rfl rfl rfl hu
+        exact SimP.cpuUpdate (c0 := { c with threads := c.threads ++ [ti] }) hc rfl rfl rfl hu
 
-theorem Sim.cpuRemoveThread {e e' : Emu} {ci ti : Nat} (h : cpuRemoveThread e ci ti = .ok e') : Sim e e' := by
+theorem SimP.cpuRemoveThread {e e' : Emu} {ci ti : Nat} (h : cpuRemoveThread e ci ti = .ok e') :
+    SimP Src.isSys e e' := by
   unfold Ovni.Emu.cpuRemoveThread at h
   cases hc : e.cpus[ci]? with
   | none => simp [hc] at h
@@ -136,9 +138,10 @@ theorem Sim.cpuRemoveThread {e e' : Emu} {ci ti : Nat} (h : cpuRemoveThread e ci
         simp only [hu] at h
         have : e.setCpu c' = e' := by injection h
         rw [← this]
-        exact Sim.cpuUpdate (c0 := { c with threads := c.threads.erase ti }) hc rfl rfl rfl hu
+        exact SimP.cpuUpdate (c0 := { c with threads := c.threads.erase ti }) hc rfl rfl rfl hu
 
-theorem Sim.cpuRefresh {e e' : Emu} {ci : Nat} (h : cpuRefresh e ci = .ok e') : Sim e e' := by
+theorem SimP.cpuRefresh {e e' : Emu} {ci : Nat} (h : cpuRefresh e ci = .ok e') :
+    SimP Src.isSys e e' := by
   unfold Ovni.Emu.cpuRefresh at h
   cases hc : e.cpus[ci]? with
   | none => simp [hc] at h
@@ -150,10 +153,10 @@ theorem Sim.cpuRefresh {e e' : Emu} {ci : Nat} (h : cpuRefresh e ci = .ok e') : 
       simp only [hu] at h
       have : e.setCpu c' = e' := by injection h
       rw [← this]
-      exact Sim.cpuUpdate (c0 := c) hc rfl rfl rfl hu
+      exact SimP.cpuUpdate (c0 := c) hc rfl rfl rfl hu
 
-theorem Sim.preThreadExecute {e e' : Emu} {ti : Nat} {p : List Nat} (h : preThreadExecute e ti p = .ok e') :
-    Sim e e' := by
+theorem SimP.preThreadExecute {e e' : Emu} {ti : Nat} {p : List Nat} (h : preThreadExecute e ti p = .ok e') :
+    SimP Src.isSys e e' := by
   unfold Ovni.Emu.preThreadExecute at h
   cases ht : e.threads[ti]? with
   | none => simp [ht] at h
@@ -165,8 +168,8 @@ theorem Sim.preThreadExecute {e e' : Emu} {ti : Nat} {p : List Nat} (h : preThre
     rename_i ci _ t1 h1 _ t2 h2
     obtain ⟨a1, a2, a3, _, _⟩ := Thread.setCpu_spec h1
     obtain ⟨b1, b2, b3, _, b5⟩ := Thread.setState_spec h2
-    exact (Sim.setThread ht (b1.trans a1) (b2.trans a2) (chanOp_set _) (a3 ▸ b3)
-      (fun hi => Or.inl (by rw [b5]; exact Chan.set_cur_noign hi (a3 ▸ b3)))).trans (Sim.cpuAddThread h)
+    exact (SimP.setThread trivial ht (b1.trans a1) (b2.trans a2) (chanOp_set _) (a3 ▸ b3)
+      (fun hi => Or.inl (by rw [b5]; exact Chan.set_cur_noign hi (a3 ▸ b3)))).trans (SimP.cpuAddThread h)
 
 theorem Thread.unsetCpu_spec {t t' : Thread} (h : t.unsetCpu = .ok t') :
     t'.gindex = t.gindex ∧ t'.mch = t.mch ∧ t'.chState = t.chState ∧ t'.state = t.state := by
@@ -190,7 +193,8 @@ theorem Thread.migrateCpu_spec {t t' : Thread} {ci : Nat} (h : t.migrateCpu ci =
     · cases h
       exact ⟨rfl, rfl, rfl, rfl⟩
 
-theorem Sim.preThreadEnd {e e' : Emu} {ti : Nat} (h : preThreadEnd e ti = .ok e') : Sim e e' := by
+theorem SimP.preThreadEnd {e e' : Emu} {ti : Nat} (h : preThreadEnd e ti = .ok e') :
+    SimP Src.isSys e e' := by
   unfold Ovni.Emu.preThreadEnd at h
   cases ht : e.threads[ti]? with
   | none => simp [ht] at h
@@ -209,12 +213,13 @@ theorem Sim.preThreadEnd {e e' : Emu} {ti : Nat} (h : preThreadEnd e ti = .ok e'
     have ht1 : e1.threads[ti]? = some t1 := by
       rw [cpuRemoveThread_threads hrm]
       simp only [Emu.setThread, hti, List.getElem?_set_self hlt]
-    exact ((Sim.setThread ht a1 a2 (chanOp_set _) a3
+    exact ((SimP.setThread trivial ht a1 a2 (chanOp_set _) a3
         (fun hi => Or.inl (by rw [a5]; exact Chan.set_cur_noign hi a3))).trans
-      ((Sim.cpuRemoveThread hrm).trans (Sim.setThread_same ht1 b1 b2 b3 b4))) hs
+      ((SimP.cpuRemoveThread hrm).trans (SimP.setThread_same ht1 b1 b2 b3 b4))) hs
 
-theorem Sim.preThreadChange {e e' : Emu} {ti : Nat} {ok : ThState → Bool} {st : ThState}
-    (h : preThreadChange e ti ok st = .ok e') : Sim e e' := by
+theorem SimP.preThreadChange {e e' : Emu} {ti : Nat} {ok : ThState → Bool} {st : ThState}
+    (h : preThreadChange e ti ok st = .ok e') :
+    SimP Src.isSys e e' := by
   unfold Ovni.Emu.preThreadChange at h
   cases ht : e.threads[ti]? with
   | none => simp [ht] at h
@@ -225,23 +230,24 @@ theorem Sim.preThreadChange {e e' : Emu} {ti : Nat} {ok : ThState → Bool} {st 
     all_goals first | (cases h; done) | skip
     rename_i _ t1 h1 _ ci hci
     obtain ⟨a1, a2, a3, _, a5⟩ := Thread.setState_spec h1
-    exact (Sim.setThread ht a1 a2 (chanOp_set _) a3
-      (fun hi => Or.inl (by rw [a5]; exact Chan.set_cur_noign hi a3))).trans (Sim.cpuRefresh h)
+    exact (SimP.setThread trivial ht a1 a2 (chanOp_set _) a3
+      (fun hi => Or.inl (by rw [a5]; exact Chan.set_cur_noign hi a3))).trans (SimP.cpuRefresh h)
 
-theorem Sim.preThread {e e' : Emu} {ti v : Nat} {p : List Nat} (h : preThread e ti v p = .ok e') :
-    Sim e e' := by
+theorem SimP.preThread {e e' : Emu} {ti v : Nat} {p : List Nat} (h : preThread e ti v p = .ok e') :
+    SimP Src.isSys e e' := by
   unfold Ovni.Emu.preThread at h
   repeat' split at h
-  · injection h with h; subst h; exact Sim.refl _
-  · exact Sim.preThreadExecute h
-  · exact Sim.preThreadEnd h
-  · exact Sim.preThreadChange h
-  · exact Sim.preThreadChange h
-  · exact Sim.preThreadChange h
-  · exact Sim.preThreadChange h
+  · injection h with h; subst h; exact SimP.refl _
+  · exact SimP.preThreadExecute h
+  · exact SimP.preThreadEnd h
+  · exact SimP.preThreadChange h
+  · exact SimP.preThreadChange h
+  · exact SimP.preThreadChange h
+  · exact SimP.preThreadChange h
   · cases h
 
-theorem Sim.migrate {e e' : Emu} {ti fr to : Nat} (h : migrate e ti fr to = .ok e') : Sim e e' := by
+theorem SimP.migrate {e e' : Emu} {ti fr to : Nat} (h : migrate e ti fr to = .ok e') :
+    SimP Src.isSys e e' := by
   unfold Ovni.Emu.migrate at h
   simp only [bind, Except.bind, pure, Except.pure, throw, throwThe, MonadExceptOf.throw] at h
   repeat' split at h
@@ -249,24 +255,24 @@ theorem Sim.migrate {e e' : Emu} {ti fr to : Nat} (h : migrate e ti fr to = .ok 
   rename_i _ e1 hrm _ e2 hadd _ t ht _ t1 h1
   injection h with h; subst h
   obtain ⟨b1, b2, b3, b4⟩ := Thread.migrateCpu_spec h1
-  exact (Sim.cpuRemoveThread hrm).trans ((Sim.cpuAddThread hadd).trans (Sim.setThread_same ht b1 b2 b3 b4))
+  exact (SimP.cpuRemoveThread hrm).trans ((SimP.cpuAddThread hadd).trans (SimP.setThread_same ht b1 b2 b3 b4))
 
-theorem Sim.preAffinitySet {e e' : Emu} {ti : Nat} {p : List Nat} (h : preAffinitySet e ti p = .ok e') :
-    Sim e e' := by
+theorem SimP.preAffinitySet {e e' : Emu} {ti : Nat} {p : List Nat} (h : preAffinitySet e ti p = .ok e') :
+    SimP Src.isSys e e' := by
   unfold Ovni.Emu.preAffinitySet at h
   simp only [bind, Except.bind, pure, Except.pure, throw, throwThe, MonadExceptOf.throw] at h
   repeat' split at h
   all_goals first | (cases h; done) | skip
-  · injection h with h; subst h; exact Sim.refl _
-  · exact Sim.migrate h
+  · injection h with h; subst h; exact SimP.refl _
+  · exact SimP.migrate h
 
-theorem Sim.preAffinityRemote {e e' : Emu} {ti : Nat} {p : List Nat} (h : preAffinityRemote e ti p = .ok e') :
-    Sim e e' := by
+theorem SimP.preAffinityRemote {e e' : Emu} {ti : Nat} {p : List Nat} (h : preAffinityRemote e ti p = .ok e') :
+    SimP Src.isSys e e' := by
   unfold Ovni.Emu.preAffinityRemote at h
   simp only [bind, Except.bind, pure, Except.pure, throw, throwThe, MonadExceptOf.throw] at h
   repeat' split at h
   all_goals first | (cases h; done) | skip
-  exact Sim.migrate h
+  exact SimP.migrate h
 
 /-! ### raw model channels -/
 
@@ -320,8 +326,8 @@ theorem Shaped.keys {e : Emu} (hs : Shaped e) {g : Nat} {t : Thread} (ht : e.thr
   have h1 : (t.mch.map (·.1)) = e.specs.map (·.char) := h
   rw [h1]; exact hs.chars
 
-theorem Sim.withChan {e e' : Emu} {ti m i : Nat} {f : Chan → Except Err Chan} (hf : ChanOp f)
-    (h : withChan e ti m i f = .ok e') : Sim e e' := by
+theorem SimP.withChan {e e' : Emu} {ti m i : Nat} {f : Chan → Except Err Chan} (hf : ChanOp f)
+    (h : withChan e ti m i f = .ok e') : SimP Src.isRaw e e' := by
   unfold Ovni.Emu.withChan at h
   simp only [bind, Except.bind, pure, Except.pure, throw, throwThe, MonadExceptOf.throw] at h
   repeat' split at h
@@ -337,7 +343,7 @@ theorem Sim.withChan {e e' : Emu} {ti m i : Nat} {f : Chan → Except Err Chan} 
   have hthr : (e.setThread (t.setChans m (cs.set i c'))).threads = e.threads.set ti (t.setChans m (cs.set i c')) := by
     simp only [Emu.setThread, hg]
   have hmch := Thread.setChans_getElem? (cs' := cs.set i c') hnd hk
-  refine Sim.of_write (fun hs => ⟨⟨?_, hs.cpuIdx, ?_, hs.chars, ?_, ?_⟩, ?_⟩) (.raw ti k i) hf
+  refine SimP.of_write (fun hs => ⟨⟨?_, hs.cpuIdx, ?_, hs.chars, ?_, ?_⟩, ?_⟩) (.raw ti k i) trivial hf
     (by simp only [Emu.src, ht, hk, hc]) hfc ?_ ?_ hs
   · intro g u hu
     rw [hthr] at hu
@@ -388,11 +394,11 @@ theorem Sim.withChan {e e' : Emu} {ti m i : Nat} {f : Chan → Except Err Chan} 
         · simp only [hkk, if_false]
       · rw [List.getElem?_set_ne hgt]
 
-theorem Sim.preFlush {e e' : Emu} {ti v : Nat} (h : preFlush e ti v = .ok e') : Sim e e' := by
+theorem SimP.preFlush {e e' : Emu} {ti v : Nat} (h : preFlush e ti v = .ok e') : SimP Src.isRaw e e' := by
   unfold Ovni.Emu.preFlush at h
   repeat' split at h
-  · exact Sim.withChan (chanOp_set _) h
-  · exact Sim.withChan (chanOp_set _) h
+  · exact SimP.withChan (chanOp_set _) h
+  · exact SimP.withChan (chanOp_set _) h
   · cases h
 
 /-! ### dispatch -/
@@ -406,19 +412,19 @@ theorem Sim.ovniEvent {e e' : Emu} {ti c v : Nat} {p : List Nat}
   repeat' split at h
   all_goals first | (cases h; done) | skip
   all_goals first
-    | exact Sim.preThread h
-    | exact Sim.preAffinitySet h
-    | exact Sim.preAffinityRemote h
-    | exact Sim.preFlush h
+    | exact (SimP.preThread h).sim
+    | exact (SimP.preAffinitySet h).sim
+    | exact (SimP.preAffinityRemote h).sim
+    | exact (SimP.preFlush h).sim
     | exact hmh _ _ _ _ _ h
     | (injection h with h; subst h; exact Sim.refl _)
 
-theorem Sim.setOutOfCpu {e : Emu} {ti : Nat} {t : Thread} {b : Bool} (ht : e.threads[ti]? = some t) :
-    Sim e (e.setThread { t with outOfCpu := b }) :=
-  Sim.setThread_same ht rfl rfl rfl rfl
+theorem SimP.setOutOfCpu {P : Src → Prop} {e : Emu} {ti : Nat} {t : Thread} {b : Bool}
+    (ht : e.threads[ti]? = some t) : SimP P e (e.setThread { t with outOfCpu := b }) :=
+  SimP.setThread_same ht rfl rfl rfl rfl
 
-theorem Sim.tableEvent {e e' : Emu} {ti c v : Nat} {m : ModelSpec}
-    (h : tableEvent e ti m c v = .ok e') : Sim e e' := by
+theorem SimP.tableEvent {e e' : Emu} {ti c v : Nat} {m : ModelSpec}
+    (h : tableEvent e ti m c v = .ok e') : SimP Src.isRaw e e' := by
   unfold Ovni.Emu.tableEvent at h
   cases ht : e.threads[ti]? with
   | none => simp [ht] at h
@@ -429,17 +435,17 @@ theorem Sim.tableEvent {e e' : Emu} {ti c v : Nat} {m : ModelSpec}
     all_goals first | (cases h; done) | skip
     all_goals (injection h with h; subst h)
     all_goals first
-      | exact Sim.refl _
-      | exact Sim.withChan (chanOp_push _ _) (by assumption)
-      | exact Sim.withChan (chanOp_pop _) (by assumption)
-      | exact Sim.withChan (chanOp_set _) (by assumption)
-      | exact Sim.setOutOfCpu (by assumption)
-      | exact (Sim.withChan (chanOp_push _ _) (by assumption)).trans
-          (Sim.setOutOfCpu (by assumption))
-      | exact (Sim.withChan (chanOp_pop _) (by assumption)).trans
-          (Sim.setOutOfCpu (by assumption))
-      | exact (Sim.withChan (chanOp_set _) (by assumption)).trans
-          (Sim.setOutOfCpu (by assumption))
+      | exact SimP.refl _
+      | exact SimP.withChan (chanOp_push _ _) (by assumption)
+      | exact SimP.withChan (chanOp_pop _) (by assumption)
+      | exact SimP.withChan (chanOp_set _) (by assumption)
+      | exact SimP.setOutOfCpu (by assumption)
+      | exact (SimP.withChan (chanOp_push _ _) (by assumption)).trans
+          (SimP.setOutOfCpu (by assumption))
+      | exact (SimP.withChan (chanOp_pop _) (by assumption)).trans
+          (SimP.setOutOfCpu (by assumption))
+      | exact (SimP.withChan (chanOp_set _) (by assumption)).trans
+          (SimP.setOutOfCpu (by assumption))
 
 /-- What the step theorem needs from a hook of `modelEvent`. -/
 def HookSim (hook : Emu → Nat → Nat → Nat → List Nat → Except Err Emu) : Prop :=
@@ -456,6 +462,6 @@ theorem Sim.modelEvent {e e' : Emu} {ti m c v : Nat} {p : List Nat}
   all_goals first | (cases h; done) | skip
   · exact Sim.ovniEvent (fun e ti v p e' h => hmh e ti c v p e' h) h
   · exact hth _ _ _ _ _ _ h
-  · exact Sim.tableEvent h
+  · exact (SimP.tableEvent h).sim
 
 end Ovni.Emu
